@@ -10,6 +10,8 @@ package main
 //	                         token starts at byte offset <off> ("eof": the EOF token);
 //	                         result: "line,col" carried by the parser.Error / util.RuntimeError
 //
+//	S <ref-hex> <var-hex> <tree>  statement separation under inserted comments, see c18sep.go
+//
 // The model side (lean/Ecal/Drivers/C18.lean) lexes the same bytes with the lexer model, and
 // recomputes the true line / column from the byte offsets.
 
@@ -88,7 +90,7 @@ var c18Small = []string{
 // atoms of the random part
 var c18Atoms = []string{
 	// identifiers, keywords, numbers
-	"a", "foo", "B2", "if", "FOR", "not", "r", "e", "1", "12.5", "1e+3", "1e5", "0x", "1.2.3", "²", "1e+308", "1e+309", "٣", "1₅",
+	"a", "foo", "B2", "if", "FOR", "not", "r", "e", "1", "12.5", "1e+3", "1e5", "0x", "1.2.3", "²", "1e+308", "1e+309", "٣", "1₅", "İ", "İf", "K",
 	// symbols
 	"+", "-", "*", "/", "//", ":=", ">=", "(", ")", "[", "]", "{", "}", ".", ",", ";", ":", "=", "!", "?", "@",
 	// blanks
@@ -200,7 +202,7 @@ func init() {
 			// corpus: the known finding, the repaired string end, position-relevant shapes
 			for _, s := range []string{"a # c\nb", "a # c\n\nb", "a # c\n  b c\nd", "# c\n\"s\" x", "# c\n/* \n */ x", "# c\n# d\nx",
 				"a \"x\\\\\" b", "r\"a\nb\" c\nd", "/* a\nb */ c\nd", "a\r\nb", "a\n", "a\n\n", "", "\n", "\"a\nb\" c", "\"abc", "/* x\n",
-				"é b\nü c", "a\n\xffb", "1e+308 a", "1e+309 a", "1.7976931348623158e+308 a", "1.7976931348623159e+308 a", "0e+999999999 a",
+				"é b\nü c", "a\n\xffb", "İ a", "İf a\nb", "K2 a", "aİ\nb", "1e+308 a", "1e+309 a", "1.7976931348623158e+308 a", "1.7976931348623159e+308 a", "0e+999999999 a",
 				"1e+0000000000001 a", "1e+311e5 a", "1₅ a", "٣ a", "0.0000001e+315 a", "0.0000001e+316 a", "17976931348623158" + strings.Repeat("0", 292) + " a",
 				"17976931348623159" + strings.Repeat("0", 292) + " a", "a /*\n*/ # c\nb /* # \n */ c", "#", "#\n", "# c", "a#c\r\nb"} {
 				lexCase("corpus", s)
@@ -236,6 +238,11 @@ func init() {
 				g.Count("planted " + pl.kind)
 				g.Emit(c18Plant1(g, pl))
 			}
+			if g.Thorough() {
+				c18SepGen(g, 40, 60000, 60000)
+			} else {
+				c18SepGen(g, 8, 3000, 3000)
+			}
 			for i := 0; i < nRandom; i++ {
 				n := 2 + g.R.Intn(4)
 				if i%3 == 0 {
@@ -251,6 +258,8 @@ func init() {
 				return c18Lex(unhx(f[1]))
 			case len(f) == 4 && f[0] == "E":
 				return c18Err(f[1], unhx(f[2]), f[3])
+			case len(f) == 4 && f[0] == "S":
+				return c18Parse(unhx(f[2]))
 			}
 			return "bad-payload"
 		},
